@@ -390,3 +390,55 @@ def c08_cases(rng, tier):
         cases.append(case(ops_, stack=rand_stack(rng), mem=rand_stack(rng, rng.choice([0, 3, 9])), sols=RICH_SOLS,
                           pm=[[4, 5, 6]] if rng.random() < 0.3 else []))
     return cases, []
+
+
+def c07_cases(rng, tier):
+    rows()
+    cases = []
+    # straight-line programs with known op counts: limits around the exact total
+    line = [P(1), P(2), op("ADD"), P(3), op("MUL"), op("POP")]
+    for c in (0, 1, 3, 1 << 20, 1 << 62, U64_MAX // 6, U64_MAX // 6 + 1, U64_MAX):
+        tot = c * len(line)
+        for lim in sorted({0, 1, max(tot - 1, 0), tot, tot + 1, c, 5 * c, U64_MAX}):
+            if 0 <= lim <= U64_MAX:
+                cases.append(case(line, cost=(c, ()), limit=lim))
+    # per-opcode cost tables
+    push_oc, add_oc, com_oc = _by_short["PUSH"]["opcode"], _by_short["ADD"]["opcode"], _by_short["COM"]["opcode"]
+    for table in (((push_oc, 0),), ((push_oc, 5), (add_oc, 100)), ((add_oc, U64_MAX),), ((push_oc, 1 << 63), (add_oc, 1 << 63))):
+        for lim in (0, 4, 5, 10, 110, 111, 1 << 63, U64_MAX):
+            cases.append(case([P(1), P(2), op("ADD")], cost=(1, table), limit=lim))
+    # compute: parent + children around the limit, costs near overflow
+    for breadth in (1, 2, 3, 50):
+        body = [P(1), op("POP")]
+        prog = [P(7), op("POP"), P(breadth), op("COM")] + body + [op("COME"), P(9), op("POP")]
+        child_ops = len(body) + 1
+        parent_ops = 4 + 2        # up to COM, plus the two after COME (children stop at COME)
+        for c in (0, 1, 2, 1 << 61, 1 << 62):
+            tot = c * (parent_ops + breadth * child_ops)
+            for lim in sorted({0, c * 4, max(tot - 1, 0), tot, tot + 1, c * (4 + breadth * child_ops), c * (4 + breadth * child_ops) - 1 if c else 0,
+                               U64_MAX}):
+                if 0 <= lim <= U64_MAX:
+                    cases.append(case(prog, cost=(c, ()), limit=lim, sols=RICH_SOLS))
+        for table in (((com_oc, 0),), ((com_oc, U64_MAX),), ((push_oc, 1 << 62),)):
+            cases.append(case(prog, cost=(1, table), limit=U64_MAX, sols=RICH_SOLS))
+    # loops: backward jumps and repeats under small limits
+    loop = [P(0), P(1), op("ADD"), op("DUP"), P(5), op("LT"), P(-7), op("SWAP"), op("JMPIF")]
+    rep = [P(4), P(1), op("REP"), op("REPC"), op("POP"), op("REPE")]
+    for lim in (0, 1, 5, 20, 43, 44, 45, 46, 100, U64_MAX):
+        cases.append(case(loop, limit=lim))
+        cases.append(case(rep, limit=lim))
+        cases.append(case(rep, limit=lim, cost=(2, ((_by_short["REPE"]["opcode"], 0),))))
+    # an endless loop is stopped by the limit when costs are positive
+    cases.append(case([P(1), P(-1), P(1), op("JMPIF")], limit=10000))
+    cases.append(case([P(1), P(-1), P(1), op("JMPIF")], limit=10000, cost=(3, ())))
+    n = 400 if tier == "quick" else 30000
+    for _ in range(n):
+        ops_ = random_program(rng, rng.randrange(2, 30), alphabet=["PUSH", "PUSH", "ADD", "DUP", "POP", "SWAP", "ALOC", "EQ", "NOT", "MUL"])
+        if rng.random() < 0.3:
+            ops_ = ops_[:3] + [P(rng.choice([1, 2, 5])), op("COM")] + ops_[3:8] + [op("COME")] + ops_[8:]
+        c = rng.choice([0, 1, 1, 2, 7, 1 << 62, U64_MAX])
+        lim = rng.choice([0, 1, 3, 10, 25, 60, 1 << 63, U64_MAX])
+        table = tuple((rng.choice(_rows)["opcode"], rng.choice([0, 1, 9, 1 << 62])) for _ in range(rng.randrange(0, 3)))
+        cases.append(case(ops_, stack=rand_stack(rng), cost=(c, table), limit=lim, sols=RICH_SOLS))
+    oracles = [as_oracle(c, "o_gas") for c in cases]
+    return cases, oracles
